@@ -83,7 +83,9 @@ def strategy_(d, tier):
             kind = d.choice(KINDS[tn])
             items.append(["ref", kind, d.choice(labs), rid])
             rid += 1
-    return dict(target=tn, origin=d.choice(TARGETS[tn]["origins"]), items=items, padding=d.bool(0.7))
+    # the whole code area may be assembled under a PHASE offset D (labels = load address + D)
+    D = d.weighted([(5, 0), (1, 0x100), (1, 0x40), (1, 0x1000), (1, 0x12)])
+    return dict(target=tn, origin=d.choice(TARGETS[tn]["origins"]), items=items, padding=d.bool(0.7), phase=D)
 
 
 def strategy(tier):
@@ -113,6 +115,9 @@ def render(case):
     if tn in ("68000", "68020"):
         L.append("\tpadding %s" % ("on" if case["padding"] else "off"))
     L.append("\torg %d" % case["origin"])
+    D = case.get("phase", 0)
+    if D:
+        L.append("\tphase %d" % (case["origin"] + D))
     labpos = {it[1]: i for i, it in enumerate(items) if it[0] == "lab"}
     refs = []
     nforward = 0
@@ -155,6 +160,8 @@ def render(case):
             }[tn][kind]
             L.append("\t" + op % (rid if kind == "equ" else k))
             refs.append((rid, kind, k, fwd))
+    if D:
+        L.append("\tdephase")
     if t["table"] is None:      # 68020: the table follows the code (the origin is near the top of the address space)
         L.append("\talign 4")
         L.append("\tdc.l 3735928559")
@@ -323,6 +330,10 @@ def execute(case):
             return engine.discarded("marker-not-unique", classes)
         labaddr[k] = hits[0]
     t = TARGETS[tn]
+    D = case.get("phase", 0)
+    amask = 0xffffffff if tn in ("68000", "68020") else 0xffff
+    if D:
+        classes.append("phased")
     # table words
     tbase = t["table"]
     if tbase is None:
@@ -336,9 +347,9 @@ def execute(case):
             v, _ = decode(tn, "word", mem, a)
         except (KeyError, ValueError) as e:
             return engine.bad("reference table entry %d unreadable: %s" % (i, e), key, classes, **detail)
-        if v != labaddr[k]:
-            return engine.bad("table word for lab%d holds $%x, the label is at $%x" % (k, v, labaddr[k]), key, classes,
-                              **detail)
+        if v != (labaddr[k] + D) & amask:
+            return engine.bad("table word for lab%d holds $%x, the label is at $%x (+ phase $%x)" % (k, v, labaddr[k], D),
+                              key, classes, **detail)
     # references
     npass = len(re.findall(r"^PASS ", r.out, re.M))
     for rid, kind, k, fwd in refs:
@@ -352,7 +363,10 @@ def execute(case):
         except (KeyError, ValueError) as e:
             return engine.bad("reference %d (%s lab%d) not decodable at $%x: %s" % (rid, kind, k, a, e), key, classes,
                               **detail)
-        want = labaddr[k] + (1 if kind == "equ" else 0)
+        relative = kind in ("bra", "bsr", "bsrx", "bcc", "sbra")
+        # PC-relative fields decode (from the load address) to the target's load address; absolute ones hold the
+        # symbol value = load address + phase offset
+        want = labaddr[k] if relative else (labaddr[k] + D + (1 if kind == "equ" else 0)) & amask
         if v != want:
             return engine.bad("reference %d (%s to lab%d at $%x) encodes $%x, the symbol finally is $%x"
                               % (rid, kind, k, a, v, want), key, classes, **detail)
@@ -460,7 +474,23 @@ def _k_bsr_expr_next(case, out):
     return False
 
 
+def _k_absw_top(case, out):
+    """68000 family, code just below $FFFF8000: a forward absolute operand (lea/jmp) whose target crosses
+    $FFFF8000 when the instruction takes its long form becomes short-addressable (abs.w is sign extended), the short
+    form moves it back below: livelock only"""
+    if "golden" in case or case.get("target") not in ("68000", "68020") or case.get("origin", 0) < 0xffff0000:
+        return False
+    if "livelock" not in out.classes and "status 97" not in out.why:
+        return False
+    items = case["items"]
+    labpos = {it[1]: i for i, it in enumerate(items) if it[0] == "lab"}
+    return any(it[0] == "ref" and it[1] in ("abs", "jmp") and labpos.get(it[2], -1) > i for i, it in enumerate(items))
+
+
 KNOWN = {
+    "absw-top-oscillation": ("68000 family: forward 'lea lab,a0' / 'jmp lab' with lab within a few bytes of $FFFF8000: "
+                             "the long form pushes lab to >= $FFFF8000 where abs.w (sign extended) fits, the short "
+                             "form pulls it back below - the pass loop never ends", _k_absw_top),
     "bsr-expr-next": ("68000 family: 'bsr next+0' (operand is an expression, target directly behind the BSR) "
                       "oscillates between the 8 and 16 bit form for ever; only a plain label operand carries the "
                       "NextLabelAfterBSR flag that prevents this", _k_bsr_expr_next),
